@@ -8,26 +8,29 @@ RULE = ("each obligation is one SMT query over the product of thread automata ex
 G, P, U, D, S = "gc", "prim", "user", "define", "set"
 
 
-def sc(spec, K, block):
-    return ([("script", list(x)) for x in spec], K, "safety", (), block, None)
+def sc(spec, K, block, finding=None):
+    return ([("script", list(x)) for x in spec], K, "safety", (), block, None, finding)
+
+
+EW = "exit-window"
 
 
 SCEN = {
     "quick": {
-        "collect x primitive-call": sc([[G], [P]], 28, []),
-        "collect x primitive-call [exit window excluded]": sc([[G], [P]], 30, ["exit-window"]),
-        "assign-global x primitive-call [exit window excluded]": sc([[S], [P]], 34, ["exit-window"]),
+        "collect x primitive-call": sc([[G], [P]], 28, [], EW),
+        "collect x primitive-call [exit window excluded]": sc([[G], [P]], 30, ["exit-window"], EW),
+        "assign-global x primitive-call [exit window excluded]": sc([[S], [P]], 34, ["exit-window"], EW),
         "collect x user-steps": sc([[G], [U, U]], 30, []),
     },
     "thorough": {
-        "collect x primitive-call": sc([[G], [P]], 28, []),
-        "collect x primitive-call [exit window excluded]": sc([[G], [P]], 36, ["exit-window"]),
-        "assign-global x primitive-call": sc([[S], [P]], 34, []),
-        "assign-global x primitive-call [exit window excluded]": sc([[S], [P]], 40, ["exit-window"]),
-        "define-global x primitive-call [exit window excluded]": sc([[D], [P]], 40, ["exit-window"]),
+        "collect x primitive-call": sc([[G], [P]], 28, [], EW),
+        "collect x primitive-call [exit window excluded]": sc([[G], [P]], 36, ["exit-window"], EW),
+        "assign-global x primitive-call": sc([[S], [P]], 34, [], EW),
+        "assign-global x primitive-call [exit window excluded]": sc([[S], [P]], 40, ["exit-window"], EW),
+        "define-global x primitive-call [exit window excluded]": sc([[D], [P]], 40, ["exit-window"], EW),
         "collect x user-steps": sc([[G], [U, U]], 36, []),
-        "collect x primitive,user": sc([[G], [P, U]], 36, ["exit-window"]),
-        "collect x primitive x primitive [exit window excluded]": sc([[G], [P], [P]], 40, ["exit-window"]),
+        "collect x primitive,user": sc([[G], [P, U]], 36, ["exit-window"], EW),
+        "collect x primitive x primitive [exit window excluded]": sc([[G], [P], [P]], 40, ["exit-window"], EW),
     },
 }
 
@@ -38,7 +41,7 @@ def _replay(r):
 
 
 def check(pid, tier, seed):
-    return p_sync.check(pid, tier, seed, {"scenarios": SCEN, "finding": "exit-window", "replay": _replay})
+    return p_sync.check(pid, tier, seed, {"scenarios": SCEN, "replay": _replay})
 
 
 def replay(pid, path):
